@@ -2,6 +2,7 @@ package main
 
 import (
 	"os"
+	"os/exec"
 	"path/filepath"
 	"strings"
 )
@@ -14,54 +15,59 @@ func rewrite(file, s, old, new string, want int) string {
 	return strings.ReplaceAll(s, old, new)
 }
 
-// leveldbFeature routes every physical LevelDB write call of middleware/db through the
-// H2 hook functions (verif_storage.go), which notify the harness and then perform the
-// identical call.
+// leveldbFeature makes every physical LevelDB write of the process notify the harness first.
+// The hook sits inside the pinned goleveldb module itself ((*DB).Put / Delete / Write in
+// db_write.go, overlaid from the module cache), so it is independent of how the repository's
+// middleware/db package spells its calls: a refactoring or a new call site there can neither
+// break the overlay nor escape it.
 func leveldbFeature(repo, out string, replace map[string]string) {
-	dir := filepath.Join(repo, "src", "middleware", "db")
-	if _, err := os.Stat(filepath.Join(dir, "verif_storage.go")); err != nil {
-		die("hook file missing: %v", err)
-	}
-	{
-		f := filepath.Join(dir, "leveldb.go")
-		b, err := os.ReadFile(f)
-		if err != nil {
-			die("%v", err)
-		}
-		s := string(b)
-		s = rewrite(f, s, "leveldb.OpenFile(file,", "verifOpenFile(file,", 1)
-		s = rewrite(f, s, "db.db.Put(key, value, nil)", "verifPut(db.db, key, value, nil)", 1)
-		s = rewrite(f, s, "db.db.Delete(key, nil)", "verifDelete(db.db, key, nil)", 1)
-		s = rewrite(f, s, "b.db.Write(b.b, nil)", "verifWrite(b.db, b.b, nil)", 1)
-		p := filepath.Join(out, "db_leveldb.go")
-		os.WriteFile(p, []byte(s), 0o644)
-		replace[f] = p
-	}
-	{
-		f := filepath.Join(dir, "database.go")
-		b, err := os.ReadFile(f)
-		if err != nil {
-			die("%v", err)
-		}
-		s := string(b)
-		s = rewrite(f, s, "b.db.Write(b.b, nil)", "verifWrite(b.db, b.b, nil)", 1)
-		p := filepath.Join(out, "db_database.go")
-		os.WriteFile(p, []byte(s), 0o644)
-		replace[f] = p
-	}
-	// any other direct write on a *leveldb.DB in the package would escape the hook
-	ents, _ := os.ReadDir(dir)
-	for _, e := range ents {
-		n := e.Name()
-		if !strings.HasSuffix(n, ".go") || strings.HasSuffix(n, "_test.go") || n == "leveldb.go" || n == "database.go" || strings.HasPrefix(n, "verif_") {
-			continue
-		}
-		b, _ := os.ReadFile(filepath.Join(dir, n))
-		if strings.Contains(string(b), "leveldb.") && (strings.Contains(string(b), ".Write(") || strings.Contains(string(b), ".Put(")) {
-			// lru/mem databases do not use leveldb; a new leveldb user must be instrumented
-			if strings.Contains(string(b), "*leveldb.DB") {
-				die("%s uses *leveldb.DB directly and is not instrumented", n)
+	ver := ""
+	if b, err := os.ReadFile(filepath.Join(repo, "go.mod")); err == nil {
+		for _, l := range strings.Split(string(b), "\n") {
+			f := strings.Fields(l)
+			for i := 0; i+1 < len(f); i++ {
+				if f[i] == "github.com/syndtr/goleveldb" && strings.HasPrefix(f[i+1], "v") {
+					ver = f[i+1]
+				}
 			}
 		}
 	}
+	if ver == "" {
+		die("goleveldb version not found in %s/go.mod", repo)
+	}
+	o, err := exec.Command("go", "env", "GOMODCACHE").Output()
+	if err != nil {
+		die("go env GOMODCACHE: %v", err)
+	}
+	dir := filepath.Join(strings.TrimSpace(string(o)), "github.com", "syndtr", "goleveldb@"+ver, "leveldb")
+	f := filepath.Join(dir, "db_write.go")
+	b, err := os.ReadFile(f)
+	if err != nil {
+		die("%v", err)
+	}
+	s := string(b)
+	s = rewrite(f, s, "func (db *DB) Write(batch *Batch, wo *opt.WriteOptions) error {\n",
+		"func (db *DB) Write(batch *Batch, wo *opt.WriteOptions) error {\n\tverifNotify(db, \"batch\", batch, nil, nil)\n", 1)
+	s = rewrite(f, s, "func (db *DB) Put(key, value []byte, wo *opt.WriteOptions) error {\n",
+		"func (db *DB) Put(key, value []byte, wo *opt.WriteOptions) error {\n\tverifNotify(db, \"put\", nil, key, value)\n", 1)
+	s = rewrite(f, s, "func (db *DB) Delete(key []byte, wo *opt.WriteOptions) error {\n",
+		"func (db *DB) Delete(key []byte, wo *opt.WriteOptions) error {\n\tverifNotify(db, \"delete\", nil, key, nil)\n", 1)
+	// The hook lives in the replaced file and uses no new import: for module-cache packages the go
+	// command takes file lists and import sets from its module index, not from the overlay.
+	s += goleveldbHook
+	p := filepath.Join(out, "goleveldb_db_write.go")
+	os.WriteFile(p, []byte(s), 0o644)
+	replace[f] = p
 }
+
+const goleveldbHook = `
+// VerifWriteHook is called before every Put / Delete / Write of every DB of the process
+// (verification overlay only).  path is always "" (kept for the harness's trace format).
+var VerifWriteHook func(path string, kind string, batch *Batch, key, value []byte)
+
+func verifNotify(db *DB, kind string, batch *Batch, key, value []byte) {
+	if h := VerifWriteHook; h != nil {
+		h("", kind, batch, key, value)
+	}
+}
+`
